@@ -27,12 +27,18 @@ import (
 // in the order ocr3Plugin.Observation runs them.
 
 type c11Op struct {
-	Op       string    `json:"op"` // add | remove | view | adv | enq | deq | outcome
+	Op       string    `json:"op"` // add | remove | view | adv | enq | deq | outcome | start | tick
 	Ps       []JProp   `json:"ps,omitempty"`
 	T        uint8     `json:"t"`
 	N        int       `json:"n"`
 	D        int64     `json:"d"` // nanoseconds
 	Surfaced [][]JProp `json:"surfaced,omitempty"`
+	// start: the final flow of upkeep type T is started at this instant (its 1 s ticker with it).
+	// tick:  that flow's ticker fires at this instant (declared by the history, performed by the real
+	//        ticker); the payload builder's behaviour for the tick's batch call:
+	Sleep   int64 `json:"sleep"`   // how long BuildPayloads takes (ns)
+	Fail    int   `json:"fail"`    // < 0: no error; otherwise it fails at argument index Fail % len(args)
+	Partial bool  `json:"partial"` // a failing call returns the payloads built so far with the error
 }
 type c11Type struct {
 	UID string `json:"uid"`
@@ -43,7 +49,14 @@ type c11Input struct {
 	Ops   []c11Op   `json:"ops"`
 }
 type c11Impl struct {
-	Outs [][]JProp `json:"outs"` // one entry per op; null for operations without a result
+	// one entry per op; null for operations without a result.  view: the result; deq: the result as read
+	// right after the call; tick: the payloads that reached the runner of that final flow.
+	Outs [][]JProp `json:"outs"`
+	// deq: the same result slice as re-read at the end of the history (a caller holds it while other
+	// Dequeue calls happen); tick: the proposals the payload builder was called with (= Dequeue's result)
+	Aux [][]JProp `json:"aux"`
+	// final-flow ticks / runner calls the history does not declare, and declared ticks that did not happen
+	Extra int `json:"extra"`
 }
 
 const (
@@ -70,7 +83,15 @@ func c11Run(t *testing.T, in *c11Input) c11Impl {
 			}
 		}
 	}
-	impl := c11Impl{Outs: make([][]JProp, len(in.Ops))}
+	impl := c11Impl{Outs: make([][]JProp, len(in.Ops)), Aux: make([][]JProp, len(in.Ops))}
+	held := map[int][]ocr2keepers.CoordinatedBlockProposal{} // Dequeue results, kept like a flow keeps its batch
+	var rig *c11FlowRig
+	for _, op := range in.Ops {
+		if op.Op == "start" || op.Op == "tick" {
+			rig = newC11FlowRig(in, ms, pq)
+			break
+		}
+	}
 	for i, op := range in.Ops {
 		switch op.Op {
 		case "add":
@@ -84,7 +105,12 @@ func c11Run(t *testing.T, in *c11Input) c11Impl {
 		case "adv":
 			if op.D > 0 {
 				time.Sleep(time.Duration(op.D))
+				synctest.Wait() // whatever the flows' tickers started at instants passed has run
 			}
+		case "start":
+			rig.start(t, op.T)
+		case "tick":
+			// performed by the real ticker of that flow; observations are filled in by rig.finish
 		case "enq":
 			note(op.Ps)
 			if err := pq.Enqueue(fromJProps(op.Ps)...); err != nil {
@@ -96,6 +122,7 @@ func c11Run(t *testing.T, in *c11Input) c11Impl {
 				t.Fatalf("Dequeue: %v", err)
 			}
 			impl.Outs[i] = toJProps(ps)
+			held[i] = ps
 		case "outcome":
 			outcome := ocr2keepersv3.AutomationOutcome{}
 			for _, round := range op.Surfaced {
@@ -106,6 +133,18 @@ func c11Run(t *testing.T, in *c11Input) c11Impl {
 			addHook.RunHook(outcome)
 		default:
 			t.Fatalf("unknown op %q", op.Op)
+		}
+	}
+	if rig != nil {
+		rig.finish(in, &impl)
+	}
+	for i, ps := range held {
+		impl.Aux[i] = toJProps(ps)
+	}
+	// every proposal an observation mentions needs its type in the table
+	for _, l := range [][][]JProp{impl.Outs, impl.Aux} {
+		for _, ps := range l {
+			note(ps)
 		}
 	}
 	in.Types = in.Types[:0]
@@ -626,8 +665,10 @@ func c11Gen(r *Rng, em *Emitter) c11Input {
 		return c11GenLayout(r, em)
 	case x < 60:
 		return c11GenMetaWalk(r, em)
-	case x < 88:
+	case x < 80:
 		return c11GenQueue(r, em)
+	case x < 90:
+		return c11GenFlows(r, em)
 	}
 	return c11GenRounds(r, em)
 }
@@ -891,6 +932,9 @@ func TestC11(t *testing.T) {
 		return
 	}
 	for _, in := range c11Edge() {
+		runOne("edge", in)
+	}
+	for _, in := range c11FlowEdge() {
 		runOne("edge", in)
 	}
 	r := NewRng(seed())
